@@ -51,34 +51,55 @@ def static_cases(ctx):
             t0 = 1700000000123456789
             edges = [t0 + e * 10 ** 9 for e in range(ne)]
             keys = [rng.choice(edges) + rng.choice([-1, 0, 1, -100, 100, 5 * 10 ** 8]) for _ in range(n)]
+        narrow = None
+        if rng.random() < 0.15:
+            # keys and edges of different float widths: the comparison is that of the exact values (float32 0.7 is 0.699999988…,
+            # below the double 0.7), whichever side is the narrow one
+            narrow = rng.choice(['keys', 'edges'])
+            dec = [0.1, 0.3, 0.7, 1.1, 1.9]
+            edges = dec[:max(2, min(ne, 5))]
+            if narrow == 'edges':
+                edges = np.array(edges, dtype=np.float32)
+                keys = [rng.choice(dec + [0.2, 0.5, 2.5, 0.0]) for _ in range(n)]
+            else:
+                keys = [np.float32(rng.choice(dec + [0.2, 0.5, 2.5, 0.0])) for _ in range(n)]
         # bins of accumulators with nested / mutable members too: every bin must own its state
         cls = rng.choice(['Counter', 'Mean', 'CacheAccumulator', 'Variance', 'Maximum', 'CacheMaximum', 'RunningVariance'])
         kw = {'length': 3} if cls in ('CacheAccumulator', 'CacheMaximum') else ({'lifetime': 3} if cls == 'RunningVariance' else {})
         bs = A.BinSorter(edges, getattr(A, cls), kwargs=kw, key=lambda o: o[0], datakey=lambda o: o[1])
-        case = dict(static=True, edges=edges, keys=keys, cls=cls)
+        # pre-aggregated partial results as data: an element that is itself an accumulator of the bin's class is MERGED into the bin
+        partials = cls in ('Counter', 'Mean') and rng.random() < 0.3
+        xedges = [float(e) for e in edges] if narrow else edges          # exact values of the edges (as Python numbers)
+        case = dict(static=True, edges=[e for e in xedges], keys=[float(k) if narrow else k for k in keys], cls=cls, narrow_side=narrow, partial_results_as_data=partials)
+        edges_for_oracle = xedges
         nb = len(edges) - 1
         bins = [[] for _ in range(nb)]
         under = over = 0
         ok = True
+        weight = lambda d: d.n if hasattr(d, 'n') and hasattr(d, 'accumulate') else 1     # noqa
         for i, k in enumerate(keys):
-            bs.accumulate((k, float(i)))
+            d = float(i)
+            if partials and i % 3 == 1:
+                d = A.Counter(2 + i % 3) if cls == 'Counter' else A.Mean(value=float(i), n=2 + i % 3)
+            bs.accumulate((k, d))
+            kx = float(k) if narrow else k
             j = None
             for b in range(nb):
-                if edges[b] <= k < edges[b + 1]:
+                if edges_for_oracle[b] <= kx < edges_for_oracle[b + 1]:
                     j = b
             if j is None:
-                if k < edges[0]:
+                if kx < edges_for_oracle[0]:
                     under += 1
                 else:
                     over += 1
             else:
-                bins[j].append(float(i))
+                bins[j].append(d)
             e, h = bs.histogram
-            if list(h) != [len(b) for b in bins] or bs.n != i + 1 or list(e) != edges:
+            if list(h) != [sum(weight(x) for x in b) for b in bins] or (not partials and bs.n != i + 1) or [float(t) if narrow else t for t in list(e)] != list(edges_for_oracle):
                 ctx.fail('binsorter-histogram-not-groupby', 'after key %r: histogram %s, group-by of the keys %s, n=%s' % (k, list(h), [len(b) for b in bins], bs.n), case)
                 ok = False
                 break
-            if sum(h) + under + over != bs.n:
+            if not partials and sum(h) + under + over != bs.n:
                 ctx.fail('binsorter-counts-not-conserved', 'inner %d + under %d + over %d != n %d' % (sum(h), under, over, bs.n), case)
                 ok = False
                 break
@@ -92,9 +113,16 @@ def static_cases(ctx):
                     ctx.fail('binsorter-bin-state', 'bin %d holds %s (n=%d), a stand-alone %s fed the bin\'s data holds %s (n=%d)' % (
                         b, showval(acc), acc.n, cls, showval(ref), ref.n), case)
                     break
-        on_edge = any(k in edges for k in keys) or any(k < edges[0] or k >= edges[-1] for k in keys)
-        ctx.case(('static', edges, keys, cls), on_edge and n >= 3, sample=case if n <= 8 else None)
+        kxs = case['keys']
+        on_edge = any(k in edges_for_oracle for k in kxs) or any(k < edges_for_oracle[0] or k >= edges_for_oracle[-1] for k in kxs)
+        ctx.case(('static', tuple(edges_for_oracle), tuple(kxs), cls, narrow, partials), on_edge and n >= 3, sample=case if n <= 8 else None)
         ctx.count('static:' + cls)
+        if narrow:
+            ctx.count('mixed_float_widths')
+        if partials:
+            ctx.count('partial_results_as_data')
+            continue            # (the model's bins hold plain data)
+        edges, keys = edges_for_oracle, kxs
         lines.append('p2q.binsort %s | %s' % (' '.join(fmtq(e) for e in edges), ' '.join(fmtq(k) for k in keys)))
         metas.append((case, [len(b) for b in bins], under, over, bins))
     mout = core.run_driver(lines)
